@@ -20,6 +20,7 @@ INSTANCES = {
     "tut1x1": ("normal..tutorial1", "net1", True),
     "getx2": ("leaves..tutorial_get", "net1 net2", True),
     "tut13x4": ("normal..tutorial1,normal..tutorial3", "net1 net2 net3 net4", True),
+    "getx3": ("leaves..tutorial_get", "net1 net2 net3", True),
     "tut13r": ("normal..tutorial1,normal..tutorial3", "net1 net5", True),          # net5 excludes vm1=CentOS
     "tut13c": ("normal..tutorial1,normal..tutorial3", "cluster1.net6 cluster1.net7 cluster2.net6", True),   # remote spawner, two clusters
     "guic": ("leaves..tutorial_gui", "cluster1.net6 cluster2.net6", True),
